@@ -267,7 +267,7 @@ func chooseServer(x *explore.X, o offer) serverChoice {
 	var sc serverChoice
 	// version
 	var vers []uint16
-	for _, v := range []uint16{tls.VersionTLS13, tls.VersionTLS12} {
+	for _, v := range []uint16{tls.VersionTLS13, tls.VersionTLS12, tls.VersionTLS11, tls.VersionTLS10} {
 		if has16(o.versions, v) {
 			vers = append(vers, v)
 		}
@@ -299,10 +299,10 @@ func chooseServer(x *explore.X, o offer) serverChoice {
 	}
 	sc.Group = groups[x.Choose("srv.group", len(groups))]
 	// TLS 1.2 suite (the utls server cannot be pinned to one TLS 1.3 suite without a hook)
-	if sc.Vers == tls.VersionTLS12 {
+	if sc.Vers <= tls.VersionTLS12 {
 		suites := []uint16{0}
 		for _, s := range o.suites {
-			if _, ok := suite12Auth[s]; ok {
+			if _, ok := suite12Auth[s]; ok && suiteValidAt(s, sc.Vers) {
 				suites = append(suites, s)
 			}
 		}
@@ -321,12 +321,15 @@ func chooseServer(x *explore.X, o offer) serverChoice {
 		if len(certs) == 0 {
 			return sc
 		}
-	} else if sc.Vers == tls.VersionTLS12 {
+	} else if sc.Vers <= tls.VersionTLS12 {
 		// default suite list: keep certificate kinds for which the hello has an ECDHE suite
 		var cs []string
 		for _, k := range certs {
 			okk := false
 			for _, s := range o.suites {
+				if !suiteValidAt(s, sc.Vers) {
+					continue
+				}
 				a := suite12Auth[s]
 				if (k == "rsa" && (a == "rsa" || a == "rsa-kx")) || (k != "rsa" && a == "ecdsa") {
 					okk = true
@@ -343,7 +346,7 @@ func chooseServer(x *explore.X, o offer) serverChoice {
 	}
 	sc.Cert = certs[x.Choose("srv.cert", len(certs))]
 	// a pinned group in TLS 1.2 only matters for ECDHE suites and needs the group on offer
-	if sc.Vers == tls.VersionTLS12 && sc.Group == 4588 {
+	if sc.Vers <= tls.VersionTLS12 && sc.Group == 4588 {
 		sc.Group = 0 // hybrid groups are TLS 1.3 only
 	}
 	// ALPN
@@ -478,3 +481,14 @@ func replayedHybridShare(base NamedID) gridClient {
 		return &sp, nil
 	}}
 }
+
+var suiteVersions = func() map[uint16][]uint16 {
+	m := map[uint16][]uint16{}
+	for _, cs := range append(tls.CipherSuites(), tls.InsecureCipherSuites()...) {
+		m[cs.ID] = cs.SupportedVersions
+	}
+	return m
+}()
+
+// suiteValidAt: the suite exists in that protocol version (SHA-256/384 MACs and AEADs do not below TLS 1.2).
+func suiteValidAt(id, vers uint16) bool { return has16(suiteVersions[id], vers) }
